@@ -73,6 +73,8 @@ def Gm.mdl (g : Gm) (expl : Rat) (slack : Option Rat) (entropy : Bool) : Mdl :=
     gamma := g.gamma,
     rollOff := if g.kind == 2 then Gen.C19.pomcpRollOff else Gen.C19.mctsRollOff,
     rollGuard := Gen.C19.pomcpRollGuard,
+    advGuard := if g.kind == 2 then Gen.C19.pomcpAdvGuard else Gen.C19.mctsAdvGuard,
+    rLeafV := Gen.C19.rpomcpLeafV,
     numA := g.nA,
     valid := g.valid }
 
@@ -116,6 +118,8 @@ structure CallRec where
   h : Nat
   iters : Nat
   ret : Nat
+  expl : Rat
+  bs : Nat
   log : List Step
   dump : List DNode
 
@@ -127,10 +131,10 @@ def pCall : P (Option CallRec) := do
       (if t == "fresh" then do let s ← P.nats; pure (true, s, 0, 0)
        else if t == "adv" then do let a ← P.nat; let k ← P.nat; pure (false, [], a, k)
        else P.fail : P (Bool × List Nat × Nat × Nat))
-    let h ← P.nat; let iters ← P.nat; let ret ← P.nat
+    let h ← P.nat; let iters ← P.nat; let ret ← P.nat; let expl ← P.q; let bs ← P.nat
     let log ← P.list pStep
     let dump ← P.list pDNode
-    pure (some { fresh, support, a, k, h, iters, ret, log, dump })
+    pure (some { fresh, support, a, k, h, iters, ret, expl, bs, log, dump })
 
 def pCalls : Nat → P (List CallRec)
   | 0 => P.fail
@@ -216,6 +220,16 @@ def sameNode (x y : DNode) (rootResize : Bool) : Bool :=
 def sameDump (old new : List DNode) : Bool :=
   old.length == new.length && old.all (fun x => match findNode new x.path with | some y => sameNode x y true | none => false)
 
+/-- `y` extends `x` (`advance_extends_subtree`): counts do not go down, particles are only appended -/
+def extendsNode (x y : DNode) : Bool :=
+  decide (x.n ≤ y.n) && decide (x.acts.length ≤ y.acts.length) &&
+  (List.range x.acts.length).all (fun a => decide ((x.acts.getD a (0, 0)).1 ≤ (y.acts.getD a (0, 0)).1)) &&
+  x.parts.isPrefixOf y.parts
+
+/-- every node of `old` is still in `new`, extended -/
+def extendsDump (old new : List DNode) : Bool :=
+  old.all (fun x => match findNode new x.path with | some y => extendsNode x y | none => false)
+
 structure St where
   t : Tree
   prev : List DNode
@@ -225,8 +239,10 @@ structure St where
   fails : List String
   sims : Nat
 
-def runCall (g : Gm) (m : Mdl) (st : St) (c : CallRec) : St :=
+def runCall (g : Gm) (mk : Rat → Mdl) (st : St) (c : CallRec) : St :=
   let cn := comp g
+  let m := mk c.expl   -- `setExploration` between calls: the bonus of this call
+  let bs := c.bs
   let rootD := findNode c.dump []
   let rootParts := match rootD with | some r => r.parts | none => []
   let rootNA := match rootD with | some r => r.acts.length | none => 0
@@ -253,6 +269,13 @@ def runCall (g : Gm) (m : Mdl) (st : St) (c : CallRec) : St :=
        else if c.dump.length != 1 || !(c.dump.all (fun n => n.n == 0 && n.acts.all (fun a => a.1 == 0 && a.2 == 0))) then
           fails ++ [s!"{cn} advance_restart_not_clean after ({c.a},{c.k}) nodes={c.dump.length}"] else fails)
     else fails
+  -- the generative model is only ever asked about actions that exist in the state it is asked about (UCT and the rollout)
+  let fails := match c.log.find? (fun st => decide (g.nA st.s ≤ st.a)) with
+    | some st => fails ++ [s!"{cn} model_called_with_invalid_action state={st.s} action={st.a} actions={g.nA st.s}"]
+    | none => fails
+  -- promotion followed by simulations: the promoted subtree is still there, only extended (`advance_extends_subtree`)
+  let fails := if hit && c.iters != 0 && !(extendsDump (subtreeOf st.prev (c.a, c.k)) c.dump) then
+      fails ++ [s!"{cn} advance_lost_subtree after ({c.a},{c.k}) iters={c.iters}: a node of the promoted subtree is missing or shrank"] else fails
   -- ---------- trace validation against the transition system
   let diffs := st.diffs
   let (t', diffs, fails) := match call m st.t op c.log with
@@ -269,22 +292,28 @@ def runCall (g : Gm) (m : Mdl) (st : St) (c : CallRec) : St :=
   let rootVs : List Rat := match rootD with | some r => r.acts.map (fun x => x.2) | none => []
   let bestM := if c.h == 0 then 0 else argmaxV (fun a => rootVs.getD a 0) rootVs.length
   let diffs := if bestM != c.ret then diffs ++ [s!"{cn} returned_action model={bestM} impl={c.ret}"] else diffs
+  -- POMCP: a belief built by `makeSampledBelief` (fresh call, restart) holds exactly `beliefSize_` particles
+  let diffs := if g.kind == 2 && !hit && rootParts.length != bs then diffs ++ [s!"{cn} root_belief_size model={bs} impl={rootParts.length}"] else diffs
   { t := t', prev := c.dump, budget := budget, rootStates := rootStates, diffs := diffs, fails := fails, sims := st.sims + c.iters }
 
 def emptyTree : Tree := Tree.fresh [] 0 0
 
 def slackTol : Rat := 1 / 1000000000
+/-- the near-tie slack on UCT scores, scaled with the magnitude of the returns (rounding of `V` is relative) -/
+def slackFor (g : Gm) : Rat :=
+  let mag := if absQ g.rmin < absQ g.rmax then absQ g.rmax else absQ g.rmin
+  slackTol * (if mag < 1 then 1 else 16 * mag)
 
 def run : P String := do
   let g ← pGm
-  let expl ← P.q; let _extra ← P.nat; let _ent ← P.bool
+  let _expl ← P.q; let _bs ← P.nat; let _ent ← P.bool
   let calls ← pCalls 64
   P.eof
   let st0 : St := { t := emptyTree, prev := [], budget := 0, rootStates := [], diffs := [], fails := [], sims := 0 }
-  let st := calls.foldl (runCall g (g.mdl expl none false)) st0
+  let st := calls.foldl (runCall g (fun e => g.mdl e none false)) st0
   -- a run the strict selection rule rejects but a 1e-9 slack on the scores accepts: rounding of V decided a near-tie
   if !st.diffs.isEmpty && st.fails.isEmpty then
-    let st2 := calls.foldl (runCall g (g.mdl expl (some slackTol) false)) st0
+    let st2 := calls.foldl (runCall g (fun e => g.mdl e (some (slackFor g)) false)) st0
     if st2.diffs.isEmpty && st2.fails.isEmpty then return "skip ill_conditioned_uct_tie" else pure ()
   let v : Verdict := { tag := (if st.sims == 0 then "trivial" else comp g), diffs := st.diffs, fails := st.fails }
   return v.render
@@ -349,6 +378,8 @@ structure RCallRec where
   h : Nat
   iters : Nat
   ret : Nat
+  expl : Rat
+  bs : Nat
   log : List Step
   dump : List RNode
 
@@ -360,10 +391,10 @@ def pRCall : P (Option RCallRec) := do
       (if t == "fresh" then do let s ← P.nats; pure (true, s, 0, 0)
        else if t == "adv" then do let a ← P.nat; let k ← P.nat; pure (false, [], a, k)
        else P.fail : P (Bool × List Nat × Nat × Nat))
-    let h ← P.nat; let iters ← P.nat; let ret ← P.nat
+    let h ← P.nat; let iters ← P.nat; let ret ← P.nat; let expl ← P.q; let bs ← P.nat
     let log ← P.list pStep
     let dump ← P.list pRNode
-    pure (some { fresh, support, a, k, h, iters, ret, log, dump })
+    pure (some { fresh, support, a, k, h, iters, ret, expl, bs, log, dump })
 
 def pRCalls : Nat → P (List RCallRec)
   | 0 => P.fail
@@ -419,7 +450,16 @@ def rDumpClauses (g : Gm) (d : List RNode) : List String :=
              (if g.layered then x / g.nb == (if s / g.nb + 1 ≥ g.tcap then g.tcap - 1 else s / g.nb + 1) else x / g.nb == s / g.nb)))
           if ok then acc else acc ++ [s!"particle_inconsistent at {n.path}: state {x} not reachable by action {a} obs {k} from the parent's particles {pn.tb}"]) acc) []
 
+/-- rPOMCP, max-of-belief: action values against `[0, 1 + γ + … + γ^(rem-1)]`, `rem` = steps left below the node -/
+def rRangeClauses (g : Gm) (d : List RNode) (budget : Nat) : List String :=
+  d.foldl (fun (acc : List String) n =>
+    let rem := budget - n.path.length
+    let hi := hiR g.gamma 1 rem
+    n.acts.foldl (fun acc x => if x.1 != 0 && (x.2 < 0 - tol || hi + tol < x.2) then
+      acc ++ [s!"value_outside_return_range at {n.path} depth={n.path.length} steps_left={rem} V={ratStr x.2} N={x.1} range=[0,{ratStr hi}]"] else acc) acc) []
+
 structure RSt where
+  budget : Nat := 0
   t : R.RTree
   prev : List RNode
   diffs : List String
@@ -431,8 +471,9 @@ def sameRNode (x y : RNode) : Bool :=
   (x.path == [] || (x.tb == y.tb && x.v == y.v)) &&
   (x.acts == y.acts || (x.path == [] && x.acts == [] && y.acts.all (fun a => a.1 == 0 && a.2 == 0)))
 
-def runRCall (g : Gm) (m : Mdl) (kk : Nat) (st : RSt) (c : RCallRec) : RSt :=
+def runRCall (g : Gm) (mk : Rat → Mdl) (kk : Nat) (st : RSt) (c : RCallRec) : RSt :=
   let cn := "rPOMCP"
+  let m := mk c.expl
   let rootD := findRNode c.dump []
   let rootNA := match rootD with | some r => r.acts.length | none => 0
   let allS := List.range g.nS
@@ -449,6 +490,20 @@ def runRCall (g : Gm) (m : Mdl) (kk : Nat) (st : RSt) (c : RCallRec) : RSt :=
        else if c.dump.length != 1 || !(c.dump.all (fun n => n.n == 0 && n.acts.all (fun a => a.1 == 0 && a.2 == 0))) then
           fails ++ [s!"{cn} advance_restart_not_clean after ({c.a},{c.k}) nodes={c.dump.length}"] else fails)
     else fails
+  let fails := if hit && c.iters != 0 then
+      (let sub := st.prev.filterMap (fun n => match n.path with | k' :: r => if k' == (c.a, c.k) then some { n with path := r } else none | [] => none)
+       if sub.all (fun x => match findRNode c.dump x.path with
+            | some y => decide (x.n ≤ y.n) && decide (x.acts.length ≤ y.acts.length) &&
+                        (List.range x.acts.length).all (fun a => decide ((x.acts.getD a (0, 0)).1 ≤ (y.acts.getD a (0, 0)).1)) &&
+                        (x.path == [] || x.tb.all (fun sc => y.tb.any (fun tc => tc.1 == sc.1 && decide (sc.2 ≤ tc.2))))
+            | none => false) then fails
+       else fails ++ [s!"{cn} advance_lost_subtree after ({c.a},{c.k}) iters={c.iters}: a node of the promoted subtree is missing or shrank"])
+    else fails
+  -- max-of-belief: the "returns" are knowledge measures in [0, 1] (`R.km_is_max_frequency`), one per step: every action value
+  -- must lie in the range of discounted sums over the remaining horizon (strict bound: `rrng` line; here with no slack either,
+  -- the rPOMCP simulations never run past the horizon)
+  let budget := if hit then (if st.budget - 1 < c.h then c.h else st.budget - 1) else c.h
+  let fails := if !m.entropy then fails ++ (rRangeClauses g c.dump budget).map (fun s => s!"{cn} {s}") else fails
   let diffs := st.diffs
   let (t', diffs, fails) := match R.rcall m kk st.t op c.log with
     | none => (st.t, diffs ++ [s!"{cn} trace_not_a_run call h={c.h} iters={c.iters} steps={c.log.length}"], fails)
@@ -462,17 +517,17 @@ def runRCall (g : Gm) (m : Mdl) (kk : Nat) (st : RSt) (c : RCallRec) : RSt :=
   let rootVs : List Rat := match rootD with | some r => r.acts.map (fun x => x.2) | none => []
   let bestM := if c.h == 0 then 0 else argmaxV (fun a => rootVs.getD a 0) rootVs.length
   let diffs := if bestM != c.ret then diffs ++ [s!"{cn} returned_action model={bestM} impl={c.ret}"] else diffs
-  { t := t', prev := c.dump, diffs := diffs, fails := fails, sims := st.sims + c.iters }
+  { t := t', prev := c.dump, diffs := diffs, fails := fails, sims := st.sims + c.iters, budget := budget }
 
 def rrun : P String := do
   let g ← pGm
-  let expl ← P.q; let kk ← P.nat; let ent ← P.bool
+  let _expl ← P.q; let kk ← P.nat; let ent ← P.bool
   let calls ← pRCalls 64
   P.eof
-  let st0 : RSt := { t := R.RTree.fresh [] 0, prev := [], diffs := [], fails := [], sims := 0 }
-  let st := calls.foldl (runRCall g { g.mdl expl none ent with pomcp := true } kk) st0
+  let st0 : RSt := { t := R.RTree.fresh [] g.amax, prev := [], diffs := [], fails := [], sims := 0 }   -- the constructor allocates the head's A action nodes
+  let st := calls.foldl (runRCall g (fun e => { g.mdl e none ent with pomcp := true }) kk) st0
   if !st.diffs.isEmpty && st.fails.isEmpty then
-    let st2 := calls.foldl (runRCall g { g.mdl expl (some slackTol) ent with pomcp := true } kk) st0
+    let st2 := calls.foldl (runRCall g (fun e => { g.mdl e (some slackTol) ent with pomcp := true }) kk) st0
     if st2.diffs.isEmpty && st2.fails.isEmpty then return "skip ill_conditioned_uct_tie" else pure ()
   -- a value comparison decided by less than the tolerance: the double run may legitimately branch the other way
   match st.t.margin with
@@ -515,6 +570,40 @@ def lib : P String := do
   let v := v.diffIf (!bad.isEmpty) s!"libm double arithmetic of the driver differs from the implementation's at samples {bad.take 5}"
   return v.render
 
+/-- `rhead mode nS beliefParam ref head beliefSize_ mostCommon (pick res)* sync`: the head node of rPOMCP after one public
+    call, as the implementation holds it (private `sampleBelief_`, `beliefSize_`).  `mode` 0: built from the given belief
+    (`ref` = its support), 1: promoted child (`ref` = the child's particle map before the call), 2: restart from the uniform
+    belief.  Clauses (on the implementation's own data; `R.headOk_sound`, `R.headFreshOk_sound`, `R.sampleWalk_spec`,
+    `R.mostCommon_spec` say what they imply): the head's belief is exactly the promoted node's particles / inside the support
+    of the given belief, `beliefSize_` is its total, every state `sampleBelief()` returns is a particle with positive count,
+    `getMostCommonParticle()` has maximal count.  The exact walk and the exact scan are compared with the model (`diff`). -/
+def rhead : P String := do
+  let mode ← P.nat; let nS ← P.nat; let bp ← P.nat
+  let ref ← P.list pPair
+  let head ← P.list pPair
+  let bsz ← P.nat; let mc ← P.nat
+  let samples ← P.list pPair
+  let sync ← P.bool
+  P.eof
+  let cn := "rPOMCP"
+  let v : Verdict := { tag := "rhead" }
+  let okHead := if mode == 1 then R.headOk ref head bsz
+                else R.headFreshOk (if mode == 0 then ref.map (·.1) else List.range nS) head bp bsz
+  let what := if mode == 1 then "promoted child's particle map" else if mode == 0 then "support of the given belief" else "uniform restart"
+  let v := v.failIf (!okHead) s!"{cn} head_belief_inconsistent mode={mode} ({what}) ref={ref} sampleBelief_={head} beliefSize_={bsz} requested={bp}"
+  -- draws
+  let badState := samples.filter (fun pr => R.countOf head pr.2 == 0)
+  let v := v.failIf (!badState.isEmpty) s!"{cn} sampled_state_not_a_particle (pick,state)={badState.headD (0,0)} sampleBelief_={head}"
+  let v := v.diffIf (!sync) s!"{cn} head engine out of sync with the predicted draws"
+  let v := v.diffIf (Gen.C19.sampleDrawLo != 1) "rPOMCP sampleBelief draw does not start at 1"
+  let badWalk := samples.filter (fun pr => R.sampleWalk head (pr.1 : Int) != some pr.2)
+  let v := v.diffIf (sync && !badWalk.isEmpty) s!"{cn} sampleBelief walk (pick,state)={badWalk.headD (0,0)} model={R.sampleWalk head ((badWalk.headD (0,0)).1 : Int)} sampleBelief_={head}"
+  -- most common particle
+  let v := v.failIf (R.countOf head mc < R.maxCount head || (R.maxCount head > 0 && R.countOf head mc == 0))
+    s!"{cn} most_common_particle_wrong returned={mc} count={R.countOf head mc} max={R.maxCount head} sampleBelief_={head}"
+  let v := v.diffIf (R.mostCommon head != some mc) s!"{cn} getMostCommonParticle model={R.mostCommon head} impl={mc}"
+  return v.render
+
 def handle (toks : List String) : String :=
   let r := match toks with
     | "run" :: rest => P.run run rest
@@ -525,6 +614,7 @@ def handle (toks : List String) : String :=
     | "rcnt" :: rest => P.run rcnt rest
     | "trm" :: rest => P.run trm rest
     | "lib" :: rest => P.run lib rest
+    | "rhead" :: rest => P.run rhead rest
     | _ => none
   r.getD "bad-op"
 
